@@ -181,18 +181,18 @@ Print Assumptions limit_machine_slice_row.
 (* the skip / limit pushed into AggregatePlan (fields Start, Limit; Limit = -1: no limit, every
    prepared row is served and Start is ignored) *)
 Theorem aggr_machine_slice : forall (A : Type) (B s n : Z) (bs : list (list A)),
-  (0 <= s < 2 ^ 63)%Z -> (n < 2 ^ 63)%Z -> (Z.of_nat (tot bs) < 2 ^ 63)%Z ->
+  (s < 2 ^ 63)%Z -> (n < 2 ^ 63)%Z -> (Z.of_nat (tot bs) < 2 ^ 63)%Z ->
   Forall nonempty bs ->
   exists outs, agg_drain_batch64 B s n bs = Some outs /\
                List.concat outs = agg_slice s n (List.concat bs) /\
                Forall nonempty outs.
-Proof. exact agg_machine_batch_slice. Qed.
+Proof. exact agg_machine_batch_slice_all. Qed.
 Print Assumptions aggr_machine_slice.
 
 Theorem aggr_machine_slice_row : forall (A : Type) (s n : Z) (rows : list A),
-  (0 <= s < 2 ^ 63)%Z -> (n < 2 ^ 63)%Z ->
+  (s < 2 ^ 63)%Z -> (n < 2 ^ 63)%Z ->
   agg_drain_row64 s n rows = Some (agg_slice s n rows).
-Proof. exact agg_machine_row_slice. Qed.
+Proof. exact agg_machine_row_slice_all. Qed.
 Print Assumptions aggr_machine_slice_row.
 
 (* non-vacuity at the extremes: `limit 9223372036854775807, 9223372036854775807`,
@@ -216,5 +216,74 @@ Proof.
     split; [vm_compute; split; [discriminate|reflexivity]|].
     split; [vm_compute; reflexivity|].
     repeat constructor; unfold nonempty; congruence. }
+  repeat split; vm_compute; reflexivity.
+Qed.
+
+(* EVERY int64 Start / Count (the plan fields are public; a negative Count yields nothing, a negative
+   Start skips nothing = Z.to_nat of them): no premise on where the numbers come from *)
+Theorem limit_machine_slice_int64 : forall (A : Type) (B s n : Z) (bs : list (list A)),
+  (s < 2 ^ 63)%Z -> (n < 2 ^ 63)%Z -> (Z.of_nat (tot bs) < 2 ^ 63)%Z ->
+  Forall nonempty bs ->
+  exists outs, drain_batch64 B s n bs = Some outs /\
+               List.concat outs = firstn (Z.to_nat n) (skipn (Z.to_nat s) (List.concat bs)) /\
+               Forall nonempty outs.
+Proof. exact limit_machine_batch_slice_all. Qed.
+Print Assumptions limit_machine_slice_int64.
+
+Theorem limit_machine_slice_row_int64 : forall (A : Type) (s n : Z) (rows : list A),
+  (s < 2 ^ 63)%Z -> (n < 2 ^ 63)%Z ->
+  drain_row64 s n rows = Some (firstn (Z.to_nat n) (skipn (Z.to_nat s) rows)).
+Proof. exact limit_machine_row_slice_all. Qed.
+Print Assumptions limit_machine_slice_row_int64.
+
+(* Limit64Parse: what parseLimit (Model/StmtParser.v parse_limit: the NUMBER tokens after LIMIT,
+   int(newNumberExpr(data).Int) = strconv.ParseInt(data, 10, 64) or 0) hands to the limit nodes.
+   Start and Count are in 0 .. 2^63-1 whenever no token text begins with '-' (the lexer never puts
+   '-' into a word: it is an operator character; a numeral >= 2^63 is a FLOAT token and the
+   statement is rejected -- both are run by the correspondence, Corr/C08M.v CaseP) *)
+From KV Require Import Model.Token Model.ExprParser Model.StmtParser Proofs.Limit64ParseProofs.
+
+Theorem limit_parse_range : forall (ts rest : list token) (l : limit_t),
+  parse_limit ts = POk l rest ->
+  Forall (fun t => unsigned (data t)) ts ->
+  (0 <= l_start l < 2 ^ 63)%Z /\ (0 <= l_count l < 2 ^ 63)%Z.
+Proof. exact parse_limit_range_lemma. Qed.
+Print Assumptions limit_parse_range.
+
+(* from the LIMIT clause as parsed to the rows, machine integers all the way, no premise on the
+   numbers: whatever parseLimit accepts, LimitPlan / FinalLimitPlan with the parsed Start / Count
+   return exactly that slice *)
+Theorem parsed_limit_machine_slice :
+  forall (A : Type) (ts rest : list token) (l : limit_t) (B : Z) (bs : list (list A)),
+  parse_limit ts = POk l rest ->
+  (Z.of_nat (tot bs) < 2 ^ 63)%Z -> Forall nonempty bs ->
+  exists outs, drain_batch64 B (l_start l) (l_count l) bs = Some outs /\
+               List.concat outs = firstn (Z.to_nat (l_count l)) (skipn (Z.to_nat (l_start l)) (List.concat bs)) /\
+               Forall nonempty outs.
+Proof. exact parsed_limit_machine_slice_lemma. Qed.
+Print Assumptions parsed_limit_machine_slice.
+
+Theorem parsed_limit_machine_slice_row :
+  forall (A : Type) (ts rest : list token) (l : limit_t) (rows : list A),
+  parse_limit ts = POk l rest ->
+  drain_row64 (l_start l) (l_count l) rows
+    = Some (firstn (Z.to_nat (l_count l)) (skipn (Z.to_nat (l_start l)) rows)).
+Proof. exact parsed_limit_machine_slice_row_lemma. Qed.
+Print Assumptions parsed_limit_machine_slice_row.
+
+(* non-vacuity: the lexer and parser twins on the extreme clauses; 2^63 and beyond, and a sign,
+   are rejected at the numeral *)
+Example limit_parse_extremes :
+  parse_limit (Lexer.lex "limit 1, 9223372036854775807") = POk (Limit 0 1 (2 ^ 63 - 1)%Z) [] /\
+  Forall (fun t => unsigned (data t)) (Lexer.lex "limit 1, 9223372036854775807") /\
+  parse_limit (Lexer.lex "limit 007") = POk (Limit 0 0 7) [] /\
+  parse_limit (Lexer.lex "limit 9223372036854775808") = PErr (Some 6) /\
+  parse_limit (Lexer.lex "limit 1, 9223372036854775808") = PErr (Some 9) /\
+  parse_limit (Lexer.lex "limit -1") = PErr (Some 6) /\
+  drain_batch64 32 (-5) 2 [[1; 2; 3]]%nat = Some [[1; 2]]%nat /\
+  drain_batch64 32 1 (-2) [[1; 2; 3]]%nat = Some [].
+Proof.
+  split; [vm_compute; reflexivity|].
+  split; [vm_compute; repeat constructor; discriminate|].
   repeat split; vm_compute; reflexivity.
 Qed.
